@@ -29,9 +29,20 @@ def main():
     except core.Infra as e:
         print('INFRA-ERROR', e)
         return 2
-    except Exception:
-        traceback.print_exc()
-        return 2
+    except Exception as e:
+        # The harness could not interpret what the implementation did (an output of an unexpected shape, type or
+        # value raised inside the harness).  On the unchanged tree this never happens; when it does, the tie between
+        # model and code no longer checks, which is reported as such: a violation without a failing input.
+        tb = traceback.format_exc()
+        print(tb)
+        import json
+        os.makedirs(os.path.join(core.VERIF, 'replays'), exist_ok=True)
+        rp = os.path.join(core.VERIF, 'replays', f'{a.pid}_{a.tier}_{seed}.json')
+        json.dump({'property': a.pid, 'kind': 'broken-tie', 'tier': a.tier, 'seed': seed,
+                   'no_longer_checks': ['correspondence harness harness/props/%s.py raised %s: %s' % (a.pid.lower(), type(e).__name__, str(e)[:300])],
+                   'traceback': tb[-3000:]}, open(rp, 'w'), indent=1)
+        print(f'VIOLATION property={a.pid} replay={rp} no-failing-input-found')
+        return 1
 
 
 if __name__ == '__main__':
